@@ -245,24 +245,21 @@ def walk_trees(
         if paths is None:
             yield entry1, entry2
         else:
-            # Check if this entry matches any of our filters
-            for filter_path in paths:
-                if path == filter_path:
-                    # Exact match
-                    yield entry1, entry2
-                    break
-                elif path is not None and path.startswith(filter_path + b"/"):
-                    # This entry is under a filter directory
-                    yield entry1, entry2
-                    break
-                elif (
-                    path is not None
-                    and filter_path.startswith(path + b"/")
-                    and (is_tree1 or is_tree2)
-                ):
-                    # This is a parent directory of a filter path
-                    yield entry1, entry2
-                    break
+            # An entry at or under a filter path is reported as it is; a
+            # parent directory of a filter path only leads there through its
+            # tree sides (a file of the same name is not under the filter).
+            if any(
+                path == filter_path or path.startswith(filter_path + b"/")
+                for filter_path in paths
+            ):
+                yield entry1, entry2
+            elif (is_tree1 or is_tree2) and any(
+                filter_path.startswith(path + b"/") for filter_path in paths
+            ):
+                yield (
+                    entry1 if is_tree1 else None,
+                    entry2 if is_tree2 else None,
+                )
 
 
 def _skip_tree(entry: TreeEntry | None, include_trees: bool) -> TreeEntry | None:
